@@ -133,6 +133,8 @@ def _worker_chunk(args):
             }
             if out.violations:
                 r['tape'] = list(tape.rec)
+            if getattr(out, 'payload', None) is not None:
+                r['payload'] = out.payload
             if recheck and derive_seed(seed, 'recheck') % recheck == 0:
                 out2 = execute(mod, kind, Tape(replay=tape.rec, index=idx))
                 r['rechecked'] = True
